@@ -417,3 +417,16 @@ RULES.append(('03.E', 'event replay: the count of events drained from pending_ev
 RULES.append(('03.A', 'enum accessors agree across sibling variants: an accessor that returns the payload field `x` for one variant returns it for every variant whose payload carries a field of that name and type (a variant moved to the `=> None` arm) - rules/accessors.py', lambda F: accessors.for_property(F, 'C03', '03.A')))
 RULES.append(('03.G', 'guard census: no reviewed call of a workspace function and no reviewed mutation of a stored collection gained a controlling branch condition (an added `&& cond`, early return / continue, more specific match arm in front of an act); counts per call site, name free (rules/guards.py)', lambda F: guards.for_property(F, 'C03', '03.G')))
 RULES.append(('03.W', 'field assignments: every reviewed (function, Type.field) direct assignment is still made - state that a path no longer updates, or updates only conditionally (get_or_insert for an overwrite); generalises NN.R (rules/writes.py)', lambda F: writes.for_property(F, 'C03', '03.W')))
+
+def r03j9(F):
+	"""an outbound payment whose failure / finalized fulfil is held while a monitor update is in flight keeps it when a second update pauses the channel again: overwritten, the payment never reaches a terminal event (09.j's accumulate clause, re-labelled)"""
+	import C09
+	out = []
+	for r in C09.r09j(F):
+		if 'accumulate:' in r.key and any(f in r.key for f in ('monitor_pending_failures', 'monitor_pending_finalized_fulfills')):
+			r.rule = '03.J'
+			out.append(r)
+	if not out:
+		out.append(Result('03.J', False, 'anchor:accumulate', 'monitor_updating_paused: accumulate clauses of 09.j not found'))
+	return out
+RULES.append(('03.J', 'an outbound payment whose failure / finalized fulfil is held while a monitor update is in flight keeps it when a second update pauses the channel again (09.j under C03)', r03j9))
